@@ -49,8 +49,6 @@ def known_class(j, cat, text):
         return "KF-C10-ircam-rate"
     if f.major == 0x02 and f.codec in (0x40, 0x41, 0x42) and cat == "snapshot":
         return "KF-DWVW-BUFFERED"
-    if f.major == 0x05 and f.codec == 0x03 and 2048 % j.ch != 0 and cat in ("roundtrip", "partition", "snapshot"):
-        return "KF-PAF24-CHUNK"
     return None
 
 
